@@ -391,7 +391,7 @@ class TriaMesh:
         # Compute cross product
         n = np.cross(v1mv0, v2mv0)
         ln = np.sqrt(np.sum(n * n, axis=1))
-        ln[ln < sys.float_info.epsilon] = 1  # avoid division by zero
+        ln[ln == 0] = 1  # avoid division by zero
         n = n / ln.reshape(-1, 1)
         # lni = np.divide(1.0, ln)
         # n[:, 0] *= lni
@@ -439,7 +439,7 @@ class TriaMesh:
         np.add.at(n, self.t[:, 2], cr2)
         # Normalize normals
         ln = np.sqrt(np.sum(n * n, axis=1))
-        ln[ln < sys.float_info.epsilon] = 1  # avoid division by zero
+        ln[ln == 0] = 1  # avoid division by zero
         n = n / ln.reshape(-1, 1)
         # lni = np.divide(1.0, ln)
         # n[:, 0] *= lni
